@@ -1,6 +1,7 @@
 """Mixed histories on one live Motl (pose operations, set operations, EM round trips) recorded with the full
 abstract state after every call and validated by spec/MotlSysTrace.tla.  `scope` selects whose clauses are
-enforced ("pose" for C05, "set" for C08); see the module comment of MotlSysTrace.tla."""
+enforced ("pose" for C05, "set" for C08, "sg" for C04, "relion" for C03, "spatial" for C09, "sym" for C10); see the
+module comment of MotlSysTrace.tla."""
 import json
 import os
 import random
@@ -15,18 +16,23 @@ POSE_OPS = ["update", "scale", "shift", "rotate", "flip"]
 SET_OPS = ["subset", "remove", "intersect", "dropdup", "merge_renumber", "renumber_particles", "renumber_objects",
            "em_roundtrip"]
 CONV_OPS = ["sg_roundtrip", "relion_roundtrip"]
+SPATIAL_OPS = ["trim", "oob", "mask_clean", "points_clean"]
 SCOPE_OF = dict([(o, "pose") for o in POSE_OPS] + [(o, "set") for o in SET_OPS] +
-                [("sg_roundtrip", "sg"), ("relion_roundtrip", "relion")])
+                [("sg_roundtrip", "sg"), ("relion_roundtrip", "relion"), ("query", "set"), ("split", "sym")] +
+                [(o, "spatial") for o in SPATIAL_OPS])
+DIMXY = (26, 31)                       # x / y size of the tomograms 1..3 in the shared dimension table (z: DIMZ)
+SPLIT_OFFSETS = [(24, 8, 16), (16, 0, 0), (0, 0, 12), (0, 0, 0), (-5, 12, 3), (4, 4, 0), (8, -16, 4)]
+TIE_OFFSETS = [((3, 4, 0), 5), ((6, 8, 0), 10), ((2, 3, 6), 7), ((1, 4, 8), 9), ((0, 0, 8), 8), ((4, 4, 2), 6)]
 RELION_VERSIONS = [3.0, 3.1, 4.0]
 RELION_PIXELS = [1.0, 2.5, 1.35]
 
 
-def gen_rows(rng, n, tag0, sids):
+def gen_rows(rng, n, tag0, sids, low=-3):
     rows = []
     for k in range(n):
         rows.append({"sid": sids[k], "tomo": rng.randint(1, 3), "obj": rng.randint(1, 3), "cls": rng.randint(1, 2),
                      "score": 0, "tag": tag0 + k,
-                     "x": [8 * rng.randint(-3, 30) + rng.choice([0, 0, 0, 4, -2]) for _ in range(3)],
+                     "x": [8 * rng.randint(low, 30) + rng.choice([0, 0, 0, 4, -2]) for _ in range(3)],
                      "s": [rng.choice([0, 0, 4, -4, 3, -7, 12, 1]) for _ in range(3)],
                      "r": rng.choice(geo.all_codes())})
     return rows
@@ -35,10 +41,12 @@ def gen_rows(rng, n, tag0, sids):
 def gen_case(rng, idx):
     na, nb = rng.randint(2, 7), rng.randint(1, 5)
     pool = rng.sample(range(1, 40), na + nb)
-    a = gen_rows(rng, na, 100, pool[:na])
+    # most histories start away from the lower faces (see the oob step: the open C09 finding is kept out of the way)
+    low = -3 if rng.random() < 0.2 else rng.choice([4, 6, 9])
+    a = gen_rows(rng, na, 100, pool[:na], low)
     # the second list shares some subtomogram numbers with the first (intersection) and repeats some (duplicates)
     bs = [rng.choice(pool[:na]) if rng.random() < 0.5 else pool[na + k] for k in range(nb)]
-    b = gen_rows(rng, nb, 200, bs)
+    b = gen_rows(rng, nb, 200, bs, low)
     ranks = list(range(1, na + nb + 1))
     rng.shuffle(ranks)
     for r, row in zip(ranks, a + b):
@@ -47,13 +55,29 @@ def gen_case(rng, idx):
         a[rng.randrange(na)]["sid"] = a[0]["sid"]           # a duplicate id inside the first list
     ops = []
     merged = False
+    expanded = False
     for _ in range(rng.randint(3, 10)):
-        name = rng.choice(POSE_OPS + SET_OPS + CONV_OPS)
+        name = rng.choice(POSE_OPS + SET_OPS + CONV_OPS + SPATIAL_OPS + ["split", "query"])
         if name == "merge_renumber":
             if merged:
                 continue
             merged = True
+        if name == "split":
+            if expanded:
+                continue
+            expanded = True
         op = {"name": name}
+        if name in SPATIAL_OPS or name in ("split", "query"):
+            op["pick"] = rng.randint(0, 10 ** 6)
+        if name == "trim":
+            op["start"] = [rng.randint(1, 3) for _ in range(3)]
+            op["end"] = [rng.randint(16, 34) for _ in range(3)]
+        elif name == "split":
+            op["n"] = rng.choice([1, 2, 2, 4, 4])
+            op["off"] = list(rng.choice(SPLIT_OFFSETS))
+        elif name == "query":
+            op["f"] = rng.choice(["sid", "tomo", "obj", "cls"])
+            op["which"] = rng.choice(["split", "unique"])
         if name == "scale":
             op["num"], op["den"] = rng.choice([(2, 1), (3, 1)])
         elif name == "shift":
@@ -142,13 +166,10 @@ def do_op(cm, m, sv, op, st_rows, workdir, variant, shared=None):
         else:
             if shared is not None and "dims" not in shared:
                 import pandas as pd
-                rows = [[t, 100, 120, DIMZ[t]] for t in sorted(DIMZ)] + [[8, 30, 30, 30]]
-                k = variant % len(rows)
-                shared["dims"] = pd.DataFrame(np.array(rows[k:] + rows[:k], dtype=float),       # any row order
-                                              columns=["tomo_id", "x", "y", "z"])
-            # the same dimension table object is handed over at every flip of a history
+                shared_dims(shared, variant)
+            # the same dimension table object is handed over at every flip / out-of-bounds call of a history
             m.flip_handedness(shared["dims"] if shared is not None else
-                              np.array([[t, 100, 120, DIMZ[t]] for t in sorted(DIMZ)], dtype=float))
+                              np.array([[t, DIMXY[0], DIMXY[1], DIMZ[t]] for t in sorted(DIMZ)], dtype=float))
         ev["kind"] = op["kind"]
     elif name in ("subset", "remove"):
         present = sorted({r[op["f"]] for r in st_rows})
@@ -217,9 +238,213 @@ def do_op(cm, m, sv, op, st_rows, workdir, variant, shared=None):
             ev["via"] = "file"
             os.remove(path)
         ev["ver"] = int(round(10 * ver))
+    elif name in SPATIAL_OPS and not snap_positions(m, st_rows):
+        return None
+    elif name == "trim":
+        v = variant % 3
+        if v == 0:
+            m.adapt_to_trimming(np.array(op["start"]), np.array(op["end"]))
+        elif v == 1:
+            m.adapt_to_trimming(list(op["start"]), tuple(op["end"]))
+        else:
+            m.adapt_to_trimming(trim_coord_start=np.array(op["start"], dtype=float), trim_coord_end=list(op["end"]))
+        ev.update(start=op["start"], end=op["end"])
+    elif name == "oob":
+        if shared is None:
+            shared = {}
+        if "dims" not in shared:
+            shared_dims(shared, variant)
+        table = shared["dims_rows"]
+        rr = random.Random(op["pick"])
+        # the open finding of C09 (a particle outside through a lower face only is kept) is kept out of these histories:
+        # only (boundary type, box size) choices for which the current list has no such particle are made
+        choices = [(k, b) for k in ("center", "whole") for b in range(1, 17) if not lower_face_only(st_rows, table, k, b)]
+        if not choices:
+            return None
+        kind, box = rr.choice(choices)
+        if kind == "center" and rr.random() < 0.5:
+            box = 0
+        d = shared["dims"]
+        if kind == "whole":
+            if variant % 2:
+                m.remove_out_of_bounds_particles(d, boundary_type="whole", box_size=box)
+            else:
+                m.remove_out_of_bounds_particles(d, "whole", box)
+        elif box:
+            if variant % 2:
+                m.remove_out_of_bounds_particles(d, boundary_type="center", box_size=box)
+            else:
+                m.remove_out_of_bounds_particles(d, box_size=box)
+        elif variant % 2:
+            m.remove_out_of_bounds_particles(d)
+        else:
+            m.remove_out_of_bounds_particles(d, "center")
+        ev.update(kind=kind, box=box, dims=[[int(v) for v in r] for r in table])
+    elif name == "mask_clean":
+        rr = random.Random(op["pick"])
+        tl = rr.sample([1, 2, 3], rr.randint(1, 3))
+        if rr.random() < 0.4:
+            tl.insert(rr.randint(0, len(tl)), 8)               # a tomogram without particles, anywhere in the list
+        form = rr.choice(["array", "array", "em", "mrc", "rec", "mixed"])
+        masks, args = [], []
+        for j, t in enumerate(tl):
+            shape = [rr.randint(6, 14) for _ in range(3)]
+            lo = [rr.randint(0, shape[i] - 1) for i in range(3)]
+            hi = [rr.randint(lo[i], shape[i] - 1) for i in range(3)]
+            inv = int(rr.random() < 0.4)
+            masks.append([t, shape, lo, hi, inv])
+            arr = np.ones(tuple(shape), dtype=np.float32) if not inv else np.zeros(tuple(shape), dtype=np.float32)
+            arr[lo[0]:hi[0] + 1, lo[1]:hi[1] + 1, lo[2]:hi[2] + 1] = 0.0 if not inv else 1.0
+            fm = form if form != "mixed" else ["array", "em", "mrc", "rec"][(variant + j) % 4]
+            args.append(store_mask(arr, fm, workdir, "%d_%d" % (variant, j)))
+        tomo_list = [tl, np.array(tl), [float(t) for t in tl]][variant % 3]
+        if variant % 4 == 0:
+            m = m.clean_by_tomo_mask(tomo_list, args, inplace=False)
+        else:
+            m.clean_by_tomo_mask(tomo_list, args)
+        for a in args:
+            if isinstance(a, str) and os.path.exists(a):
+                os.remove(a)
+        ev.update(tl=tl, masks=masks, form=form)
+    elif name == "points_clean":
+        import pandas as pd
+        rr = random.Random(op["pick"])
+        pts = []
+        radius = rr.choice([0, 4, 8, 12, 17, 24, 33])
+        if st_rows and rr.random() < 0.5:                       # a point exactly on the radius of a particle
+            vec, ln = rr.choice(TIE_OFFSETS)
+            k = rr.choice([1, 2, 4])
+            radius = ln * k
+            src = rr.choice(st_rows)
+            v = list(vec)
+            rr.shuffle(v)
+            pts.append([src["tomo"]] + [src["x"][i] + src["s"][i] + k * v[i] * rr.choice([-1, 1]) for i in range(3)])
+        for _ in range(rr.randint(0 if pts else 1, 3)):
+            src = rr.choice(st_rows)
+            t = src["tomo"] if rr.random() < 0.8 else rr.choice([1, 2, 3, 8])
+            pts.append([t] + [src["x"][i] + src["s"][i] + rr.randint(-20, 20) for i in range(3)])
+        df = pd.DataFrame({"tomo_id": [float(q[0]) for q in pts], "x": [q[1] / geo.U for q in pts],
+                           "y": [q[2] / geo.U for q in pts], "z": [q[3] / geo.U for q in pts]})
+        if variant % 3 == 1:
+            df = df[["z", "tomo_id", "y", "x"]]
+        if variant % 2:
+            m = m.clean_by_distance_to_points(df, radius / geo.U, inplace=False)
+        else:
+            m.clean_by_distance_to_points(df, radius / geo.U)
+        ev.update(pts=pts, r=radius)
+    elif name == "split":
+        # exact on the cube group for C1, C2, C4; parents must be identifiable by their number
+        if len(st_rows) > 6 or len({r["sid"] for r in st_rows}) != len(st_rows):
+            return None
+        n = op["n"]
+        sym = ["C%d" % n, "c%d" % n, int(n), float(n), np.int64(n)][variant % 5]
+        off = [v / geo.U for v in op["off"]]
+        m = m.split_in_asymmetric_subunits(sym, off if variant % 2 else np.array(off))
+        ev.update(n=n, off=op["off"])
+    elif name == "query":
+        col = KEYCOL[op["f"]]
+        ev.update(f=op["f"], which=op["which"])
+        if op["which"] == "split":
+            parts = m.split_by_feature(col)
+            ev["parts"] = [project(p.df)[0] for p in parts]
+        else:
+            vals = np.asarray(m.get_unique_values(col), dtype=float).ravel()
+            ev["uniq"] = [int(v) if float(v).is_integer() else -1 for v in vals]
     else:
         raise core.MachineryError("unknown op %r" % (op,))
     return m, ev
+
+
+def snap_positions(m, st_rows):
+    """Harness step before a spatial filter (not judged): the logged state is the table projected onto the 1/8-voxel
+    lattice within 1e-9, but rotations by multiples of 90 degrees leave residues of ~1e-16 in positions and shifts; the
+    filters compare with exact bounds (faces, radii, voxel edges), so the live position columns are set to the exact
+    lattice values of the logged state first.  False when the state is not exact (the step is then not made)."""
+    if len(m.df) != len(st_rows) or any(r["r"][0] == 0 for r in st_rows):
+        return False
+    df = m.df
+    for j, f in enumerate(("x", "y", "z")):
+        for col, key in ((f, "x"), ("shift_" + f, "s")):
+            vals = np.array([r[key][j] / geo.U for r in st_rows], dtype=float)
+            if df[col].dtype.kind in "iu" and np.array_equal(np.rint(vals), vals):
+                vals = vals.astype(df[col].dtype)           # an integer-typed column stays integer-typed
+            df[col] = vals
+    return True
+
+
+def shared_dims(shared, variant):
+    """The dimension table of a history (one object for every flip / out-of-bounds call): tomograms 1..3 and a
+    tomogram without particles, in any row order."""
+    import pandas as pd
+    rows = [[t, DIMXY[0], DIMXY[1], DIMZ[t]] for t in sorted(DIMZ)] + [[8, 30, 30, 30]]
+    k = variant % len(rows)
+    shared["dims_rows"] = rows[k:] + rows[:k]
+    shared["dims"] = pd.DataFrame(np.array(shared["dims_rows"], dtype=float), columns=["tomo_id", "x", "y", "z"])
+
+
+def lower_face_only(rows, table, kind, box):
+    """Generator filter (not a verdict): does the list hold a particle whose centre / box leaves its tomogram through
+    lower faces only?  Such states are not offered to the oob step (open finding F-C09-lower-face)."""
+    dims = {int(r[0]): r[1:] for r in table}
+    h = 8 * ((box + 1) // 2) if kind == "whole" else 0
+    for r in rows:
+        c = [r["x"][i] + r["s"][i] for i in range(3)]
+        d = dims.get(r["tomo"])
+        if d is None:
+            return True
+        low = any(c[i] - h < 0 for i in range(3))
+        up = any(c[i] + h >= 8 * d[i] for i in range(3))
+        if low and not up:
+            return True
+    return False
+
+
+def store_mask(arr, form, workdir, tag):
+    """A mask as array or as a file written from scratch with the independent writers (x fastest)."""
+    if form == "array":
+        return arr
+    from . import parsers
+    path = os.path.join(workdir, "mixed_mask_%s.%s" % (tag, form))
+    dims = tuple(int(v) for v in arr.shape)
+    values = [float(v) for v in arr.transpose(2, 1, 0).ravel()]
+    if form == "em":
+        parsers.write_em(path, dims, "float32", values)
+    else:
+        parsers.write_mrc(path, dims, "float32", values)
+    return path
+
+
+def project_split(df):
+    """Projection of the table split_in_asymmetric_subunits returned: geom2 / geom5 carry the subunit index and the
+    parent's number (logged as k / parent), so the row tag is recovered from geom1 and checked on the other tag fields."""
+    schema_ok = sorted(df.columns) == sorted(motlutil.FIELDS) and len(df.columns) == 20
+    if not schema_ok:
+        return [], False
+    tmp = df.copy().reset_index(drop=True).astype(float)
+    k_par = [(tmp.loc[i, "geom2"], tmp.loc[i, "geom5"]) for i in range(len(tmp))]
+    for i in range(len(tmp)):
+        t = tmp.loc[i, "geom1"]
+        tmp.loc[i, "geom2"], tmp.loc[i, "geom5"] = 3 * t, -t
+    rows, _ = project(tmp)
+
+    def ival(v):
+        return int(v) if np.isfinite(v) and float(v).is_integer() and abs(v) < 10 ** 8 else -1
+    for r, (k, par) in zip(rows, k_par):
+        r["k"], r["parent"] = ival(k), ival(par)
+    return rows, True
+
+
+def resync_split(cm, m, rows):
+    """Harness step after a symmetry expansion (not judged): the row count changed and the subunits of a parent share
+    its tag fields, so every row gets a fresh tag (10000 + 10 tag + k) installed in the tag fields."""
+    df = m.df.copy().reset_index(drop=True).astype(float)
+    if len(df) != len(rows):
+        return m
+    for i, r in enumerate(rows):
+        t = 10000 + 10 * max(r["tag"], 0) + max(r["k"], 0) % 10
+        for f, v in (("geom1", t), ("geom2", 3 * t), ("geom3", t + 0.5), ("geom4", 2 * t), ("geom5", -t), ("subtomo_mean", t / 4.0)):
+            df.loc[i, f] = v
+    return cm.Motl(df)
 
 
 def resync(cm, m, name, st_rows):
@@ -272,9 +497,22 @@ def execute(ctx, case, scope):
             if own:
                 ctx.fail("call_raises", "step %d %s: %s" % (i + 1, op, err), case, {"op": op["name"], "layer": "mixed"})
             break                                    # a call of the other property that raises only ends the history
+        if res is None:
+            continue                                 # the step is not generated on this state (see do_op)
         m, ev = res
         if op["name"] in CONV_OPS:
             m, ev["geom3"] = resync(cm, m, op["name"], st)
+        if op["name"] == "split":
+            ev["post"], schema_ok = project_split(m.df)
+            if schema_ok:
+                m = resync_split(cm, m, ev["post"])
+            st, ok2 = project(m.df)
+            ev["next"] = st
+            ev["schema_ok"] = bool(schema_ok and ok2)
+            events.append(ev)
+            if not ev["schema_ok"]:
+                break
+            continue
         st, schema_ok = project(m.df)
         ev["post"] = st
         ev["schema_ok"] = bool(schema_ok)
@@ -297,12 +535,17 @@ def run_mixed(ctx, scope, cases):
     verdicts = {v["tid"]: v for v in res.tagged.get("VERDICT", [])}
     if len(verdicts) != len(traces):
         raise core.MachineryError("MotlSysTrace: %d verdicts for %d traces\n%s" % (len(verdicts), len(traces), res.stdout[-2000:]))
+    counts = ctx.extra.setdefault("mixed_judged_steps_" + scope, {})
+    for v in verdicts.values():
+        for nm in v.get("judged", []):
+            counts[nm] = counts.get(nm, 0) + 1
     for i, case in enumerate(cases):
         v = verdicts[i + 1]
         if not v["ok"]:
             ev = traces[i]["ev"][v["step"] - 1]
             ctx.fail(v["clause"], "mixed history rejected by MotlSysTrace at step %d (%s)" % (
-                v["step"], {k: ev[k] for k in ev if k != "post"}), dict(case, scope=scope), {"op": ev["name"], "layer": "mixed"})
+                v["step"], {k: ev[k] for k in ev if k not in ("post", "next", "parts", "masks", "dims")}), dict(case, scope=scope),
+                {"op": ev["name"], "layer": "mixed"})
 
 
 def run(ctx, scope, n):
